@@ -42,7 +42,9 @@ def r1_no_drop(ck, F):
             ck.ob(rule, f"{rec['verdict']}/{b.path}/{rec['callee'].rsplit('::', 1)[-1]}", False, f"result of {rec['callee']} is {rec['verdict']}: {rec['detail']} (src: {b.src_at(rec['site'])[:70]})", b, rec["site"])
     ck.extra.setdefault("result_consumption", {})[F.config] = hist
     ck.ob(R, "all-fallible-results-propagated", set(hist) <= {"propagated"}, f"{n} fallible call results inventoried: {hist}", config=F.config)
-    ck.floor(R, "fallible call sites inventoried", n, 150, F.config)
+    # counted on the pinned tree: 150 in the smallest configuration; the floor guards against a vacuous
+    # inventory, not against de-duplicating refactorings, hence the 20% slack
+    ck.floor(R, "fallible call sites inventoried", n, 120, F.config)
     # C12-R2: unwrap/expect anywhere on a component error type (also through fn references)
     bad = []
     for b in F.user_bodies():
@@ -95,7 +97,7 @@ def r3_convert(ck, F):
                     cands.append(a["fn"])
             for f in cands:
                 uses.append((bdy, s, f["args"][0] if f["args"] else "?"))
-    ck.floor(R, "uses of convert_merge_error", len(uses), 8, F.config)
+    ck.floor(R, "uses of convert_merge_error", len(uses), 4, F.config)  # 8 counted; call sites may legitimately be shared
     for bdy, s, u in uses:
         ck.ob(R, f"receiver-has-no-merge-error/{bdy.path}", u == "std::convert::Infallible", f"convert_merge_error applied to Error<{u}> (must be Error<Infallible>: a real merge error would hit the panicking arm)", bdy, s)
     f = F.fns.get(A("convert_merge_error"))
